@@ -701,16 +701,16 @@ impl<T: PPGEvaluatorStrategy> PPGEvaluator<T> {
             }
         }
 
+        // keep a job's records unless one of its outputs is now produced
+        // by a job of a different name (a multi-output job that gained or
+        // lost outputs): those files have been rewritten by somebody else.
         let filter_if_renamed = |job_id: &str| -> bool {
-            if job_id.contains(":::") {
-                let last_time = multi_parts_to_jobs.get(job_id);
-                match last_time {
-                    Some(last_time) => last_time == job_id,
+            job_id
+                .split(":::")
+                .all(|part| match multi_parts_to_jobs.get(part) {
+                    Some(current_producer) => current_producer == job_id,
                     None => true, //not present.
-                }
-            } else {
-                return true;
-            }
+                })
         };
 
         let mut out = self.history.clone();
